@@ -53,7 +53,7 @@ META = {
     "fan-out, triangle, diamond, random DAG, nodes optionally nested workflows; outer/inner splits over 1–2 of 3 fields, lists of length 1–3, combiners over own "
     "and inherited axes; a dense stream of chains/fan-ins whose nodes have an upstream state AND an own outer/scalar splitter AND a "
     "combiner over own / inherited / mixed axes) is executed by pydra (debug worker), by the Lean spec interpreter and by the Lean model; workflow outputs, "
-    "per-node job counts and per-node job inputs (read from the cache root) are compared three ways; on every fourth workflow "
+    "per-node job counts and per-node job inputs (read from the cache root) are compared three ways; on every sixth workflow "
     "a second run over the same objects is compared with the model's second run (Model.runTwice, used by C30).",
     "note": "Trusted: Lean kernel; hand-written Lean model of State/_create_graph/NodeExecution/LazyOutField (tied to the code "
     "only by differential execution); generator reach (one task type whose output encodes its inputs; no splits over "
@@ -90,6 +90,8 @@ OBLIGATIONS = [
         "C03_full_statement_false",
         "C03_no_shared_origin_not_enough",
         "C03_workflow_Simple_partial",
+        "C03_complete_prev_state_first",
+        "C03_complete_prev_state_again",
         "simpleExample_in_class",
         "simpleExample_jobs",
     )
@@ -644,8 +646,8 @@ def run_cases(ctx, cases, label="generated"):
     cases = [c for c in cases]
     impls, reruns = [], []
     for k, c in enumerate(cases):
-        # every fourth workflow is run a second time over the same constructed objects (C30's repeated-run model)
-        r = wfstate.run_case(_strip(c), ctx.scratch, rerun=(k % 4 == 0))
+        # every sixth workflow is run a second time over the same constructed objects (C30's repeated-run model)
+        r = wfstate.run_case(_strip(c), ctx.scratch, rerun=(k % 6 == 0))
         r.pop("phase", None)
         reruns.append(r.pop("rerun", None))
         impls.append(r)
